@@ -12,7 +12,7 @@ SMALL = ["gammadet", "gdet", "betamag", "gtt", "nup4", "gdown4"]
 def specs_for(tier, seed, graph):
     s = [
         # safety layer: ANY set of unfrozen entries older than one calculation may go at any clean-up point
-        dict(pres="components", nreq=3, ce=2, policy="any", requests=SMALL, emit=False, allow_freeze=True,
+        dict(pres="components", nreq=3, ce=2, policy="any", requests=SMALL, emit=False, allow_freeze=True, coverage=True,
              label="safety layer (any eviction), metric sub-graph, 3 requests incl. freeze_data between, ce=2"),
         dict(pres="components", nreq=2, ce=1, policy="any", requests=SMALL, emit=False,
              label="safety layer (any eviction), metric sub-graph, 2 requests, ce=1"),
@@ -98,6 +98,10 @@ def run(tier, seed):
     plan = CC.Plan()
     specs = CC.run_models(run, graph, specs_for(tier, seed, graph), plan, opts)
     run.info["tlc_models"] = [{k: v for k, v in sp.items() if k != "requests"} for sp in specs]
+    # vacuity: the actions the invariants talk about must have been taken in the exhaustive safety-layer run
+    never = [a for a in ("Request", "Freeze", "StepRead", "StepTest", "Return") if run.coverage_actions.get(a, (0, 0))[1] == 0]
+    if never:
+        raise RuntimeError(f"vacuous model run: actions never taken: {never}")
     liveness(run, graph)
     importance_jobs(plan, opts, graph, seed)
     CC.execute(run, "C03", graph, plan, opts, seed, max_traces=500 if tier == "quick" else 4000)
